@@ -2112,7 +2112,7 @@ static int64_t bufr_rd_section4(bufr_read_callback readcb, void *cd,
    total = bufr->s0.len + bufr->s1.len + bufr->s2.len + bufr->s3.len + bufr->s4.len + bufr->s5.len;
    if (total != bufr->len_msg)
       {
-      len = bufr->len_msg - (bufr->s0.len + bufr->s1.len + bufr->s2.len + bufr->s3.len + bufr->s5.len);
+      len = (int64_t)bufr->len_msg - ((int64_t)bufr->s0.len + bufr->s1.len + bufr->s2.len + bufr->s3.len + bufr->s5.len); /* signed: the lengths are unsigned and may exceed the total */
       if (bufr_is_debug())
          {
          char   errmsg[256];
